@@ -1,5 +1,6 @@
 import SamVerif.Lemmas.FmtEval
 import SamVerif.Lemmas.Fmt
+import SamVerif.Lemmas.FmtPat
 /-!
 # C08 — Formatting a file never changes the program it denotes (expression / literal fragment)
 
@@ -82,7 +83,8 @@ theorem member_name_before_lt :
 
 /-- **What formatting does to every expression** (unbounded size, fuel-free, no side condition;
 operators, unary operators, member accesses with and without type arguments, calls with their
-arguments, tuples, blocks, if-else, match with its cases, lambdas — recursively in every position):
+arguments, tuples, blocks with `let` and expression statements, if-else, match with its cases,
+lambdas — recursively in every position):
 the printed token sequence always parses, and the tree read back is `regroup e` — the original tree
 with the right spine of every shortcut node `x ⊕ (y ⊕ z)` (⊕ ∈ {+, *, &&, ||}) re-associated to
 the left, and nothing else changed. -/
@@ -121,13 +123,13 @@ mutual
 def NoShortcut : Expr → Bool
   | .atom _ => true
   | .tuple e es => NoShortcut e && NoShortcutArgs es
-  | .block e => NoShortcut e
+  | .block b => NoShortcutBlk b
   | .post e _ _ => NoShortcut e
   | .call0 f => NoShortcut f
   | .call f args => NoShortcut f && NoShortcutArgs args
   | .unary _ e => NoShortcut e
   | .binary o l r => NoShortcut l && NoShortcut r && !usesShortcut o l r
-  | .ifElse c t e => NoShortcut c && NoShortcut t && NoShortcut e
+  | .ifElse c t e => NoShortcut c && NoShortcutBlk t && NoShortcutBlk e
   | .matchE m cs => NoShortcut m && NoShortcutCases cs
   | .lambda _ b => NoShortcut b
 def NoShortcutArgs : Args → Bool
@@ -136,6 +138,13 @@ def NoShortcutArgs : Args → Bool
 def NoShortcutCases : Cases → Bool
   | .one _ b => NoShortcut b
   | .cons _ b rest => NoShortcut b && NoShortcutCases rest
+def NoShortcutBlk : Blk → Bool
+  | .fin ss e => NoShortcutStmts ss && NoShortcut e
+  | .noFin ss => NoShortcutStmts ss
+def NoShortcutStmts : Stmts → Bool
+  | .nil => true
+  | .letS _ e rest => NoShortcut e && NoShortcutStmts rest
+  | .exprS e rest => NoShortcut e && NoShortcutStmts rest
 end
 
 mutual
@@ -145,9 +154,9 @@ theorem regroup_noShortcut : (e : Expr) → NoShortcut e = true → regroup e = 
     simp only [NoShortcut, Bool.and_eq_true] at h
     have : regroup (.tuple e es) = .tuple (regroup e) (rgArgs es) := by simp [regroup, rg, wrapCtx]
     rw [this, regroup_noShortcut e h.1, rgArgs_noShortcut es h.2]
-  | .block e, h => by
-    have : regroup (.block e) = .block (regroup e) := by simp [regroup, rg, wrapCtx]
-    rw [this, regroup_noShortcut e (by simpa [NoShortcut] using h)]
+  | .block b, h => by
+    have : regroup (.block b) = .block (rgBlk b) := by simp [regroup, rg, wrapCtx]
+    rw [this, rgBlk_noShortcut b (by simpa [NoShortcut] using h)]
   | .post e p f, h => by
     have : regroup (.post e p f) = .post (regroup e) p f := by simp [regroup, rg, wrapCtx]
     rw [this, regroup_noShortcut e (by simpa [NoShortcut] using h)]
@@ -167,9 +176,9 @@ theorem regroup_noShortcut : (e : Expr) → NoShortcut e = true → regroup e = 
     simp
   | .ifElse x y z, h => by
     simp only [NoShortcut, Bool.and_eq_true] at h
-    have : regroup (.ifElse x y z) = .ifElse (regroup x) (regroup y) (regroup z) := by
+    have : regroup (.ifElse x y z) = .ifElse (regroup x) (rgBlk y) (rgBlk z) := by
       simp [regroup, rg, wrapCtx]
-    rw [this, regroup_noShortcut x h.1.1, regroup_noShortcut y h.1.2, regroup_noShortcut z h.2]
+    rw [this, regroup_noShortcut x h.1.1, rgBlk_noShortcut y h.1.2, rgBlk_noShortcut z h.2]
   | .matchE m cs, h => by
     simp only [NoShortcut, Bool.and_eq_true] at h
     have : regroup (.matchE m cs) = .matchE (regroup m) (rgCases cs) := by simp [regroup, rg, wrapCtx]
@@ -193,6 +202,24 @@ theorem rgCases_noShortcut : (cs : Cases) → NoShortcutCases cs = true → rgCa
     simp only [NoShortcutCases, Bool.and_eq_true] at h
     have : rgCases (.cons k x rest) = .cons k (regroup x) (rgCases rest) := by simp [rgCases, regroup]
     rw [this, regroup_noShortcut x h.1, rgCases_noShortcut rest h.2]
+theorem rgBlk_noShortcut : (b : Blk) → NoShortcutBlk b = true → rgBlk b = b
+  | .fin ss e, h => by
+    simp only [NoShortcutBlk, Bool.and_eq_true] at h
+    have : rgBlk (.fin ss e) = .fin (rgStmts ss) (regroup e) := by simp [rgBlk, regroup]
+    rw [this, rgStmts_noShortcut ss h.1, regroup_noShortcut e h.2]
+  | .noFin ss, h => by
+    have : rgBlk (.noFin ss) = .noFin (rgStmts ss) := by simp [rgBlk]
+    rw [this, rgStmts_noShortcut ss (by simpa [NoShortcutBlk] using h)]
+theorem rgStmts_noShortcut : (ss : Stmts) → NoShortcutStmts ss = true → rgStmts ss = ss
+  | .nil, _ => by simp [rgStmts]
+  | .letS k e rest, h => by
+    simp only [NoShortcutStmts, Bool.and_eq_true] at h
+    have : rgStmts (.letS k e rest) = .letS k (regroup e) (rgStmts rest) := by simp [rgStmts, regroup]
+    rw [this, regroup_noShortcut e h.1, rgStmts_noShortcut rest h.2]
+  | .exprS e rest, h => by
+    simp only [NoShortcutStmts, Bool.and_eq_true] at h
+    have : rgStmts (.exprS e rest) = .exprS (regroup e) (rgStmts rest) := by simp [rgStmts, regroup]
+    rw [this, regroup_noShortcut e h.1, rgStmts_noShortcut rest h.2]
 end
 
 /-- **Exact round trip for every expression in which the shortcut is not taken**: the printed
@@ -233,8 +260,8 @@ private def big : Expr :=
   .binary .or (.binary .and a (.unary .not (.unary .not (.post (.post b 0 true) 1 false))))
     (.binary .lt
       (.binary .plus a (.binary .mul
-        (.call (.lambda 0 (.binary .plus b (.ifElse a (.binary .plus b c) (.tuple a (.one (.unary .neg b))))))
-          (.cons (.binary .plus a b) (.one (.block c))))
+        (.call (.lambda 0 (.binary .plus b (.ifElse a (.fin (.letS 0 (.binary .mul a b) (.exprS (.call0 c) .nil)) (.binary .plus b c)) (.noFin (.exprS (.tuple a (.one (.unary .neg b))) .nil)))))
+          (.cons (.binary .plus a b) (.one (.block (.fin .nil c)))))
         (.binary .concat c (.matchE a (.cons 0 (.binary .minus a b) (.one 1 (.call0 c)))))))
       (.binary .minus (.binary .minus a b) (.binary .plus b (.unary .neg (.post (.unary .neg c) 3 true)))))
 example : NoShortcut big = true ∧ parseE (printE big) = some big := by decide
@@ -249,15 +276,45 @@ example : NoShortcut (.binary .plus a (.binary .plus b c)) = false ∧
 private def Iex : Interp :=
   { atom := fun n => ([n], some (.int 2147483647)), member := fun _ _ v => ([], some v),
     call := fun _ vs => ([100 + vs.length], some (.int 0)), tuple := fun _ => ([], none),
-    matchSel := fun _ cs => ((cs.headD (0, ([], none))).2), lam := fun _ d => d }
+    matchSel := fun _ cs => ((cs.headD (0, ([], none))).2), lam := fun _ d => d,
+    letBind := fun n _ => ([200 + n], some (.other 0)) }
 example : eval Iex (.binary .plus a (.binary .plus b c)) = ([0, 1, 2], some (.int 2147483645)) ∧
     eval Iex (.binary .and a (.binary .and b c)) = ([0], some (.bool false)) ∧
     eval Iex (.call a (.cons b (.one c))) = ([0, 1, 2, 102], some (.int 0)) ∧
-    eval Iex (.ifElse (.binary .eq a a) b c) = ([0, 0, 1], some (.int 2147483647)) ∧
+    eval Iex (.ifElse (.binary .eq a a) (.fin (.letS 7 c .nil) b) (.noFin .nil)) =
+      ([0, 0, 2, 207, 1], some (.int 2147483647)) ∧
     eval Iex (.binary .plus a (.tuple b (.one c))) = ([0, 1, 2], none) := by decide
 example : parseE [.lp, .atom 0, .op .plus, .atom 1, .rp] = some (.binary .plus a b) := by decide
 
 end SamVerif.FmtFull
+
+namespace SamVerif.FmtPat
+
+/-! ## Patterns (`let`, `match` cases, `if let`) -/
+
+/-- **Pattern round trip, full strength**: every pattern — identifiers, `_`, variants with and without
+data, tuple and object patterns, or-patterns, nested arbitrarily — is printed to a token sequence that
+the pattern parser reads back as exactly that pattern, leaving the rest of the input, whenever the
+rest does not start with `(` or `|` (in the language it starts with `=`, `:`, `->`, `,`, `)` or `}`). -/
+theorem roundtrip_pattern (o : OPat) (rest : List PTok) (hl : ∀ r, rest ≠ .lp :: r)
+    (hb : ∀ r, rest ≠ .bar :: r) : parsePattern (printO o ++ rest) = some (o, rest) := by
+  have := sizeO_le o
+  exact mO o rest hl hb _ (by simp only [List.length_append]; omega)
+
+/-- the side conditions are necessary: a tag followed by `(` takes it as its data, a pattern followed
+by `|` continues as an or-pattern. -/
+theorem roundtrip_pattern_side_conditions :
+    parsePattern (printO (.one (.variant 0)) ++ [.lp, .lower 1, .rp]) =
+      some (.one (.variantT 0 (.one (.one (.id 1)))), []) ∧
+    parsePattern (printO (.one (.id 0)) ++ [.bar, .us]) = some (.alt (.id 0) (.one .wild), []) := by
+  decide
+
+private def samplePat : OPat :=
+  .alt (.variantT 0 (.cons (.one (.id 1)) (.one (.alt .wild (.one (.variant 2))))))
+    (.one (.obj (.consS 3 (.oneA 4 (.one (.tuple (.cons (.one (.id 5)) (.one (.one .wild)))))))))
+example : parsePattern (printO samplePat ++ [.other 0]) = some (samplePat, [.other 0]) := by decide
+
+end SamVerif.FmtPat
 
 namespace SamVerif.Fmt
 
